@@ -101,3 +101,14 @@ PROPS["C02"] = dict(
         dict(test="^Test(Regress_C02|C02_Routing)$", quick=dict(checks=1500, timeout=900), thorough=dict(checks=8000, shards=12, timeout=3000)),
     ],
 )
+
+PROPS["C12"] = dict(
+    pkg="c12", race=True, level="exploration",
+    technique="rapid-generated logger configurations and write scripts (payload shapes, recycled caller buffer with the async worker parked in a gated appender, concurrent writers) against an exact-sequence oracle; race detector",
+    level_text="Exploration: for generated configurations of the loggers behind four named handles and generated write scripts, every appender (or console/file sink) of the written logger must hold exactly the bytes present at call time, once each and in call order (per writer under concurrency), Write must report the full length, other loggers must see nothing, and a configuration omitting a requested name must be rejected; the buffer-reuse hazard is made deterministic by parking the async worker in a gate while the caller overwrites its buffer; built with -race.",
+    level_note="Trusted: harness recording/gated appender (copies bytes at delivery). Concurrent interleavings are sampled. The property's 'every appender of the logger' is read for the rolling-file logger as both of its files when separate=true.",
+    rule="generated handle configurations x write scripts",
+    steps=[
+        dict(test="^Test(Regress_C12|C12_Write|C12_MissingName)$", quick=dict(checks=250, timeout=900), thorough=dict(checks=2500, shards=12, timeout=3000)),
+    ],
+)
